@@ -41,7 +41,7 @@ def routing_case(draw, n=(2, 6), extra_max=4, parallel=False, max_req=4):
             dst += 1
         reqs.append({'src': src, 'dst': dst, 'include': draw(services.include_list(truth)),
                      'lead_src': draw(st.integers(0, 5)) == 0, 'trail_dst': draw(st.integers(0, 5)) == 0,
-                     'bidir': draw(st.booleans())})
+                     'bidir': draw(st.booleans()), 'index_style': draw(st.sampled_from([0, 0, 1, 2, 3]))})
     return {'eq': eq, 'topo': topo, 'truth': truth, 'requests': reqs}
 
 
@@ -97,7 +97,7 @@ def run(case, ctx):
         if r['trail_dst']:
             full = full + [(f"trx R{r['dst']}", 'STRICT')]
         data['path-request'].append(services.request_json(i, f"trx R{r['src']}", f"trx R{r['dst']}", include=full,
-                                                          bidir=r['bidir']))
+                                                          bidir=r['bidir'], index_style=r.get('index_style', 0)))
         kept = [(u, h) for u, h in inc if u != 'no such node']
         # naming the same node twice in a row is one constraint, not two
         merged = []
